@@ -310,3 +310,76 @@ Example C07_ex_dir_path_with_date_harmless :
   option_map (fun v => match snd v with CRep (Some r) => map fst (r_files r) | _ => [] end)
     (d_find (f_local (s_fs st)) (local_name rf_W)) = Some [rf_a].
 Proof. vm_compute. repeat split. Qed.
+
+(* ---- the program entries of a report (oracle week_reports_ok of the suite).
+        A count file's program identity cf_prog is the id of its FIVE metadata
+        fields Program, Version, GoVersion, GOOS, GOARCH (the harness numbers
+        the distinct five-tuples); a report body is the list of files folded
+        in; its canonical form `sums` is what is compared with the JSON the
+        real code wrote.  kval / pval / fval: the value of counter k in a list
+        of pairs / in the entries of identity p / contributed by the files of
+        identity p (Proofs/UploaderSums.v). ---- *)
+From Coq Require Import Sorting.Sorted.
+From Tele Require Import Proofs.UploaderSums Proofs.UploaderGroups.
+
+(* one program entry per identity that occurs among the files, none else *)
+Theorem C07_report_entries_by_identity : forall allowed up files,
+  StronglySorted N.lt (keys (sums allowed up files)) /\
+  forall x, In x (keys (sums allowed up files)) <-> exists e : bytes * cfile, In e files /\ cf_prog (snd e) = x.
+Proof. exact sums_keys. Qed.
+Print Assumptions C07_report_entries_by_identity.
+
+(* every value is the sum over exactly the files of that identity (local
+   report: all counters and stack counters; upload report: the approved ones) *)
+Theorem C07_report_values_local : forall allowed files p k,
+  pval (sums allowed false files) p k = fval files p k.
+Proof. exact sums_val_local. Qed.
+Print Assumptions C07_report_values_local.
+
+Theorem C07_report_values_upload : forall allowed files p k,
+  pval (sums allowed true files) p k = if existsb (N.eqb k) allowed then fval files p k else 0%Z.
+Proof. exact sums_val_upload. Qed.
+Print Assumptions C07_report_values_upload.
+
+(* what the executable oracle says about an observed list of program entries *)
+Theorem C07_week_reports_ok_spec : forall obs files, week_reports_ok obs files = true ->
+  NoDup (keys obs) /\
+  (forall x, In x (keys obs) <-> exists e : bytes * cfile, In e files /\ cf_prog (snd e) = x) /\
+  forall p k, pval obs p k = fval files p k.
+Proof. exact week_reports_ok_spec. Qed.
+Print Assumptions C07_week_reports_ok_spec.
+
+(* the clause of one_report_per_week for the program entries: after a complete
+   sequential run, local.W.json lists every file once, has one program entry
+   per identity occurring among W's count files, and each value is the sum
+   over exactly W's files of that identity (ws: any duplicate-free enumeration
+   of W's count files) *)
+Theorem C07_one_report_groups :
+  forall (f : FS) (c : ucfg) (W : bytes), fs_wf f -> NoDup (dnames (f_local f)) ->
+  d_mem (f_local f) (local_name W) = false ->
+  d_mem (f_local f) (ready_name W) = false ->
+  d_mem (up_dir f) (marker_name W) = false ->
+  (forall g, d_mem (f_local f) g = true -> collect_ready c g = true -> contains g W = false) ->
+  (forall n id ct cf, d_find (f_local f) n = Some (id, ct) -> parse ct = Some cf ->
+     uploader_week (cf_end cf) <> W -> contains (ready_name (uploader_week (cf_end cf))) W = false) ->
+  (forall n cf, wfile f W n cf -> before_start (cf_end cf) (u_start c) = true) ->
+  (exists n cf, wfile f W n cf /\ cf_counts cf <> []) ->
+  forall sched t, s_ths (run sched (init_state f [c])) = [t] -> t_pc t = Done ->
+  exists id r,
+    d_find (f_local (s_fs (run sched (init_state f [c])))) (local_name W) = Some (id, CRep (Some r)) /\
+    r_week r = W /\ NoDup (map fst (r_files r)) /\
+    let body := sums [] false (r_files r) in
+    NoDup (keys body) /\
+    (forall p, In p (keys body) <-> exists n cf, wfile f W n cf /\ cf_prog cf = p) /\
+    forall ws, NoDup ws -> (forall n cf, In (n, cf) ws <-> wfile f W n cf) ->
+    forall p k, pval body p k = fval ws p k.
+Proof. exact week_report_groups. Qed.
+Print Assumptions C07_one_report_groups.
+
+(* non-vacuity: two files of one week whose identities differ (ids 0 and 1):
+   two entries; the merged entry is rejected *)
+Example C07_ex_week_reports_ok :
+  week_reports_ok [(0%N, [(0%N, 1%Z)]); (1%N, [(0%N, 2%Z)])] [(rf_a, rf_cf1); (rf_b, rf_cf2)] = true /\
+  week_reports_ok [(0%N, [(0%N, 3%Z)])] [(rf_a, rf_cf1); (rf_b, rf_cf2)] = false /\
+  week_reports_ok [(0%N, [(0%N, 1%Z)]); (0%N, [(0%N, 2%Z)])] [(rf_a, rf_cf1); (rf_b, rf_cf2)] = false.
+Proof. vm_compute. repeat split. Qed.
